@@ -54,6 +54,10 @@ CHECKS['C15'] = dict(engine='W-loop', level='exploration', design='5/C15',
    text='seeded search over file-efun call sequences (read/write/remove/rename/copy/link/list/stat/size/bytes/buffer/tail/save/restore/dump efuns, load/clone/find_object, #include, inherit) with path strings from an attack grammar while the master answers every valid_read/valid_write from a seeded script (deny, allow, rewrite to a legal or hostile path, junk, raise an error); the simulated file layer logs every libc file call made while an efun runs, and the oracle checks at that seam that no opened or modified path is absolute or has a .. component, that a file efun touches only paths the master approved for this very call (after the documented leading-slash strip; directory entries and the save temp file of an approved path count), and that a denied call touches nothing. Sampling, not proof.',
    note='the path alphabet is sampled, not enumerated; ed() is not driven; load_object/#include/inherit are checked for confinement only; an existence probe (stat) on a .. path before load_object rejects the name is observed and not counted as opening',
    technique='deterministic simulation with fault injection (scripted master answers incl. errors, hostile inputs, invariant checked at the simulated file seam)')
+CHECKS['C20'] = dict(engine='W-loop', level='exploration', design='5/C20',
+   text='seeded search over histories of object creation (clone, load, implicit load through call_other, inherit-triggered load, clone by the master with its euid dropped), seteuid (names, 0, own uid), export_uid and destruct performed by objects of different creators, interleaved with run-time changes of the master policy: creator_file answers (Root, Backbone, other names, same-as-loader, 0, array, raised error) and valid_seteuid answers (1, 0, array, string, raised error, apply missing); commands arrive over the simulated socket into the real driver. After every command getuid/geteuid of every live object (tagged objects, blueprints, master) is compared with a reference model that changes a uid only at creation by the creator_file rules or through export_uid from an object with euid onto one without, and an euid only through the object\'s own seteuid that the master was asked about and approved (or to 0); an object without euid (other than the master) must not reach creator_file or create() of anything. Sampling, not proof.',
+   note='virtual objects are not driven; the uid for a non-string creator_file answer is the implementation-defined NONAME; bind()/function pointers evaluated in another object are not driven',
+   technique='deterministic simulation with fault injection (scripted master policy incl. raised errors and missing apply, hostile call orders, reference model compared after every step)')
 PENDING = 'check not built yet (work in progress, see DESIGN.md section 10)'
 
 def main():
